@@ -171,7 +171,16 @@ impl Recorder {
         if ex.panic.is_some() {
             self.panics += 1;
         }
+        let probe = tag.get("probe").and_then(|v| v.as_bool()).unwrap_or(false);
+        let pre_diff = tag.get("preDiff").filter(|v| v.is_object()).cloned();
+        let empty = project::diff(&json!({"pool":{},"tick":{},"ta":{},"pos":{},"tok":{},"mint":{},"oracle":{},"cfg":{},"tier":{},"atier":{},"badge":{},"ext":{},"bundle":{},"lock":{},"other":{}}),
+                                  &json!({"pool":{},"tick":{},"ta":{},"pos":{},"tok":{},"mint":{},"oracle":{},"cfg":{},"tier":{},"atier":{},"badge":{},"ext":{},"bundle":{},"lock":{},"other":{}}));
+        let mut tag = tag;
+        if let Some(o) = tag.as_object_mut() {
+            o.remove("preDiff");
+        }
         let ev = json!({
+            "probe": probe, "hasPreDiff": pre_diff.is_some(), "preDiff": pre_diff.unwrap_or(empty),
             "k": "ix", "name": ix.name, "args": ix.args, "slots": w.slots_json(ix),
             "ok": ex.ok(), "err": nu(ex.code as u128), "panic": ex.panic.is_some(), "rtv": ex.runtime_violation.is_some(),
             "must": must, "now": nu(w.now as u128), "tag": tag,
